@@ -93,7 +93,9 @@ func VerifH19dPushHandler() {
 	n := verifrt.IntRange("len", 0, 4+verifrt.Tier())
 	target := verifrt.String("target", n)
 	for i := 0; i < n; i++ {
-		verifrt.Assume(zzAlpha(target[i], "/:%[hta") || verifrt.Tier() > 0 && n <= 3)
+		// (arbitrary target bytes in the thorough tier did not finish in 30 minutes: 256-way forks in the
+		// middleware's string searches; the parser itself sees arbitrary bytes in H19dLinkHeaderAnyByte)
+		verifrt.Assume(zzAlpha(target[i], "/:%[hta"))
 		verifrt.Assume(target[i] != '>' && target[i] != ',' && target[i] != ';')
 	}
 	prefix := []string{"", "/", "http://", "https://", "//", "HTTP://"}[verifrt.Choose("prefix", 6)]
